@@ -1,7 +1,9 @@
 """
 C14 -- A* returns a valid, shortest path between the cells the caller named.
 
-Tie:  H  `lean/XrsVerif/Model/AStar.lean` is a hand model of pathfinding.py (after repairs D6, D7);
+Tie:  T  harness/facts_astar.py regenerates Gen/AStarFacts.lean (heuristic / step kernels, neighbour tables, relaxation
+         body, min-cost scan, barrier test, pixel rule, snap scan); Props/C14.lean proves them equal to the model's.
+      H  `lean/XrsVerif/Model/AStar.lean` is a hand model of pathfinding.py (after repairs D6, D7);
          the theorems of Props/C14.lean are about that model for every cost structure / every
          ordered field.  Here the public `a_star_search` (and the two helpers `_get_pixel_id`,
          `_find_nearest_pixel`) run on generated inputs and are compared with the compiled model:
@@ -14,6 +16,7 @@ arithmetic on the actual float coordinates, nearest crossable cell by squared di
 exact Dijkstra (costs as integer pairs (a, b)) for reachability and the minimum.
 """
 import itertools
+import json
 import math
 import os
 from fractions import Fraction
@@ -45,8 +48,74 @@ def axis(c0, step, n):
     return np.array([float(F(c0) + i * F(step)) for i in range(n)], dtype=np.float64)
 
 
+INT_RANGE = {"int8": (-2 ** 7, 2 ** 7 - 1), "uint8": (0, 2 ** 8 - 1), "int16": (-2 ** 15, 2 ** 15 - 1),
+             "uint16": (0, 2 ** 16 - 1), "int32": (-2 ** 31, 2 ** 31 - 1), "uint32": (0, 2 ** 32 - 1),
+             "int64": (-2 ** 63, 2 ** 63 - 1), "uint64": (0, 2 ** 64 - 1)}
+FLOAT_DT = ("float32", "float64")
+
+
+def cell_exact(t):
+    """a data token -> 'nan' | 'inf' | '-inf' | Fraction (the exact value of the cell)"""
+    from common import untok_exact
+    return untok_exact(t)
+
+
+def data_rows(case):
+    """token rows of the surface; long grids are stored compactly as `grid` = shape + blocked rectangles
+    (cells 1, blocked cells 0)"""
+    if "data" in case:
+        return case["data"]
+    g = case["grid"]
+    rows = [["1"] * g["w"] for _ in range(g["h"])]
+    for r0, r1, c0, c1 in g["blocks"]:
+        for i in range(r0, r1 + 1):
+            for j in range(c0, c1 + 1):
+                rows[i][j] = "0"
+    return rows
+
+
+def make_data(case):
+    """the surface array in the dtype the case names (float64 when it names none)"""
+    dt = case.get("dtype", "float64")
+    if dt in INT_RANGE:
+        return np.array([[int(t) for t in row] for row in data_rows(case)], dtype=dt)
+    return np.array([[untok(t) for t in row] for row in data_rows(case)], dtype=dt)
+
+
+def barrier_objects(case):
+    """the Python list the caller passes as `barriers=`: case['bar'] holds typed tokens ('i:-9999', 'f:2.5',
+    'f:nan', 'f:inf'); older cases hold plain numbers in case['barriers'] (passed as floats)"""
+    if "bar" in case:
+        out = []
+        for t in case["bar"]:
+            kind, v = t.split(":", 1)
+            out.append(int(v) if kind == "i" else untok(v))
+        return out
+    return [float(b) for b in case["barriers"]]
+
+
+def barrier_tokens(case):
+    """exact wire tokens of the listed numbers"""
+    if "bar" in case:
+        return [t.split(":", 1)[1] for t in case["bar"]]
+    return [tok(b) for b in case["barriers"]]
+
+
+_RASTER_MEMO = {}
+
+
 def make_raster(case):
-    data = np.array([[untok(t) for t in row] for row in case["data"]], dtype=np.float64)
+    if "grid" in case:          # the cases of one long-grid group share their raster
+        key = (json.dumps(case["grid"]), case["y0"], case["ystep"], case["x0"], case["xstep"], bool(case.get("res")))
+        if key not in _RASTER_MEMO:
+            _RASTER_MEMO.clear()
+            _RASTER_MEMO[key] = _make_raster(case)
+        return _RASTER_MEMO[key]
+    return _make_raster(case)
+
+
+def _make_raster(case):
+    data = make_data(case)
     h, w = data.shape
     attrs = {}
     if case.get("res"):
@@ -62,7 +131,7 @@ def real_search(case):
     start = (float(F(case["sy"])), float(F(case["sx"])))
     goal = (float(F(case["gy"])), float(F(case["gx"])))
     try:
-        out = a_star_search(ras, start, goal, barriers=[float(b) for b in case["barriers"]],
+        out = a_star_search(ras, start, goal, barriers=barrier_objects(case),
                             connectivity=case["conn"], snap_start=bool(case["snaps"]), snap_goal=bool(case["snapg"]))
     except ValueError:
         return "err:ValueError", None
@@ -148,9 +217,10 @@ def guarded_search(cases):
 
 
 def search_request(case):
-    h, w = len(case["data"]), len(case["data"][0])
-    g = f"{h}x{w}:" + ",".join(t for row in case["data"] for t in row)
-    parts = [f"astar data={g}", "barriers=" + ",".join(tok(b) for b in case["barriers"]), f"conn={case['conn']}",
+    rows = data_rows(case)
+    h, w = len(rows), len(rows[0])
+    g = f"{h}x{w}:" + ",".join(t for row in rows for t in row)
+    parts = [f"astar data={g}", "barriers=" + ",".join(barrier_tokens(case)), f"conn={case['conn']}",
              f"y0={ftok(case['y0'])}", f"ystep={ftok(case['ystep'])}", f"x0={ftok(case['x0'])}", f"xstep={ftok(case['xstep'])}",
              f"sy={ftok(case['sy'])}", f"sx={ftok(case['sx'])}", f"gy={ftok(case['gy'])}", f"gx={ftok(case['gx'])}",
              f"snaps={int(case['snaps'])}", f"snapg={int(case['snapg'])}"]
@@ -169,6 +239,24 @@ def parse_reply(rep):
 
 def crossable(data, barriers):
     return ~(np.isnan(data) | np.isin(data, np.array(barriers, dtype=np.float64)))
+
+
+def crossable_exact(case):
+    """the property's reading of `barriers`, in exact arithmetic and independent of any dtype: a cell is not
+    crossable iff it is NaN or its value equals one of the listed numbers (NaN in the list matches nothing,
+    an infinity only a cell holding that infinity)"""
+    listed = set()
+    for b in barrier_objects(case):
+        if isinstance(b, int):
+            listed.add(Fraction(b))
+        elif b != b:
+            continue
+        elif math.isinf(b):
+            listed.add("inf" if b > 0 else "-inf")
+        else:
+            listed.add(Fraction(b))
+    rows = [[cell_exact(t) for t in row] for row in data_rows(case)]
+    return np.array([[v != "nan" and v not in listed for v in row] for row in rows], dtype=bool)
 
 
 # ---------------------------------------------------------------- oracle pieces (independent of the model)
@@ -228,12 +316,14 @@ def dijkstra(cross, conn, s):
     return best
 
 
-def check_path(out, cross, conn, S, G):
-    """None when `out` is what the property demands for start cell S and goal cell G, else a description"""
+def check_path(out, cross, conn, S, G, best=None):
+    """None when `out` is what the property demands for start cell S and goal cell G, else a description;
+    `best` = {cell: (a, b)} exact minimum costs (at least for G when reachable), computed here when not given"""
     nn = ~np.isnan(out)
     if not cross[S] or not cross[G]:
         return None if not nn.any() else f"end point not crossable (start {S}, goal {G}) but {int(nn.sum())} cells are not NaN"
-    best = dijkstra(cross, conn, S)
+    if best is None:
+        best = dijkstra(cross, conn, S)
     if G not in best:
         return None if not nn.any() else f"no route from {S} to {G} but {int(nn.sum())} cells are not NaN"
     if not nn.any():
@@ -268,7 +358,7 @@ def oracle_search(case, status, out):
     ras = make_raster(case)
     data = np.asarray(ras.data)
     h, w = data.shape
-    cross = crossable(data, [float(b) for b in case["barriers"]])
+    cross = crossable_exact(case)
     ys, xs = ras["y"].data, ras["x"].data
     if case["conn"] not in (4, 8):
         return None
@@ -313,11 +403,14 @@ def blame(case, ras, cross, cand):
         return "D6:pixel-id"
     if sp[0] not in cand["sy"] or sp[1] not in cand["sx"] or gp[0] not in cand["gy"] or gp[1] not in cand["gx"]:
         return "D6:pixel-id"
-    bar = np.array([float(b) for b in case["barriers"]])
+    bar = np.array(barrier_objects(case))
     data = np.asarray(ras.data)
     for on, pt in ((case["snaps"], sp), (case["snapg"], gp)):
         if on:
-            got = tuple(int(v) for v in _find_nearest_pixel(pt[0], pt[1], data, bar))
+            try:
+                got = tuple(int(v) for v in _find_nearest_pixel(pt[0], pt[1], data, bar))
+            except Exception:          # noqa: BLE001
+                return "path"
             want = nearest_crossable(cross, pt[0], pt[1])
             if want and got not in want:
                 return "D7:snap"
@@ -532,6 +625,329 @@ def maze_case(rng, hmax=8):
                        rng.random() < 0.3, rng.random() < 0.3, res=rng.random() < 0.2)
 
 
+# ---- long grids with walls: two routes round the ends of a wall whose costs a + b*sqrt2 nearly tie
+_NB = {}
+
+
+def numba_dijkstra():
+    """exact Dijkstra in numba (costs as integer pairs (a, b) = a + b*sqrt2, compared in integers); returns the
+    jitted function (cross, conn8, sy, sx) -> (A, B), -1 = unreachable.  Independent of the code under test."""
+    if "dij" in _NB:
+        return _NB["dij"]
+    from numba import njit
+
+    @njit(cache=True)
+    def ab_lt(a1, b1, a2, b2):
+        p = a1 - a2
+        q = b2 - b1
+        if p < 0:
+            if q >= 0:
+                return True
+            return 2 * q * q < p * p
+        if q <= 0:
+            return False
+        return p * p < 2 * q * q
+
+    @njit(cache=True)
+    def dij(cross, conn8, sy, sx):
+        h, w = cross.shape
+        A = np.full((h, w), -1, np.int64)
+        B = np.full((h, w), -1, np.int64)
+        done = np.zeros((h, w), np.bool_)
+        if not cross[sy, sx]:
+            return A, B
+        A[sy, sx] = 0
+        B[sy, sx] = 0
+        while True:
+            by = -1
+            bx = -1
+            for i in range(h):
+                for j in range(w):
+                    if A[i, j] >= 0 and not done[i, j]:
+                        if by < 0 or ab_lt(A[i, j], B[i, j], A[by, bx], B[by, bx]):
+                            by = i
+                            bx = j
+            if by < 0:
+                break
+            done[by, bx] = True
+            for dy in range(-1, 2):
+                for dx in range(-1, 2):
+                    if dy == 0 and dx == 0:
+                        continue
+                    diag = dy != 0 and dx != 0
+                    if diag and not conn8:
+                        continue
+                    y = by + dy
+                    x = bx + dx
+                    if y < 0 or y >= h or x < 0 or x >= w:
+                        continue
+                    if not cross[y, x] or done[y, x]:
+                        continue
+                    na = A[by, bx] + (0 if diag else 1)
+                    nb = B[by, bx] + (1 if diag else 0)
+                    if A[y, x] < 0 or ab_lt(na, nb, A[y, x], B[y, x]):
+                        A[y, x] = na
+                        B[y, x] = nb
+        return A, B
+
+    _NB["dij"] = dij
+    return dij
+
+
+WALL_SIZES_QUICK = [(12, 40), (14, 48), (16, 56), (18, 62), (18, 62), (20, 70)]
+WALL_SIZES_BIG = [(24, 90), (30, 110), (36, 140)]
+
+
+def wall_group(rng, sizes):
+    """one long raster T x L with a wall across it near one end (straight, or L/T-shaped with an arm along the long
+    axis), free cells at one or both ends of the wall, a start behind the wall and a set of goals far on the other
+    side: goals in line (same row / exact diagonal) with a free end of the wall -- so that the best route finishes
+    with a long straight run -- plus goals anywhere.  Then transposed / mirrored at random, and searched in either
+    direction.  Returns (grid, conn, [(start, goal), ...])."""
+    T, L = rng.choice(sizes)
+    back = rng.randrange(1, 4)                   # columns behind the wall
+    c = L - 1 - back
+    a = rng.choice([1, 1, 1, 2, 3])              # free rows above the wall
+    b = rng.choice([1, 1, 1, 2, 3]) if rng.random() < 0.85 else 0
+    blocks = [[a, T - 1 - b, c, c]]
+    shape = rng.choice(["straight", "straight", "arm", "arm", "two-arms"])
+    if shape != "straight":
+        for end_row in ([a], [T - 1 - b], [a, T - 1 - b])[0 if shape == "arm" and rng.random() < 0.5 else 1 if shape == "arm" else 2]:
+            k = rng.randrange(1, 7)
+            if rng.random() < 0.5:
+                blocks.append([end_row, end_row, max(0, c - k), c])          # arm towards the goal side
+            elif back > 1:
+                blocks.append([end_row, end_row, c, min(L - 2, c + k)])      # arm towards the start side
+    blocked = {(i, j) for r0, r1, c0, c1 in blocks for i in range(r0, r1 + 1) for j in range(c0, c1 + 1)}
+    starts = [(i, j) for i in range(T) for j in range(c + 1, L) if (i, j) not in blocked]
+    S = rng.choice(starts)
+    gap_rows = list(range(0, a)) + list(range(T - b, T))
+    goals = set()
+    for gr in gap_rows:
+        for x in (0, 1, rng.randrange(0, max(1, c // 3))):
+            goals.add((gr, x))                                      # same row as a free end of the wall
+        for sgn in (1, -1):                                         # on the exact diagonal through it
+            k = rng.randrange(T // 2, T)
+            y, x = gr + sgn * k, c - k
+            if 0 <= y < T and 0 <= x:
+                goals.add((y, max(0, x - rng.choice([0, 0, 5, 20]))))
+    for _ in range(T):
+        goals.add((rng.randrange(T), rng.randrange(0, max(1, c // 2))))
+    goals = sorted(g for g in goals if g not in blocked)
+    conn = 8 if rng.random() < 0.8 else 4
+    tr, fr, fc = rng.random() < 0.5, rng.random() < 0.5, rng.random() < 0.5
+
+    def cell(p):
+        y, x = p
+        if fr:
+            y = T - 1 - y
+        if fc:
+            x = L - 1 - x
+        return (x, y) if tr else (y, x)
+
+    def rect(bl):
+        (y0, x0), (y1, x1) = cell((bl[0], bl[2])), cell((bl[1], bl[3]))
+        return [min(y0, y1), max(y0, y1), min(x0, x1), max(x0, x1)]
+    grid = dict(h=L if tr else T, w=T if tr else L, blocks=[rect(bl) for bl in blocks])
+    pairs = []
+    for G in goals:
+        s_, g_ = cell(S), cell(G)
+        pairs.append((g_, s_) if rng.random() < 0.5 else (s_, g_))
+    return grid, conn, pairs, shape, cell(S)
+
+
+def wall_cases(rng, n_groups, sizes):
+    out = []
+    for gi in range(n_groups):
+        grid, conn, pairs, shape, pivot = wall_group(rng, sizes)
+        desc = rng.random() < 0.5
+        h = grid["h"]
+        y0, ystep = (h - 1, -1) if desc else (0, 1)
+        for s_, g_ in pairs:
+            out.append(dict(kind="search", grid=grid, barriers=[0], conn=conn, y0=str(y0), ystep=str(ystep), x0="0", xstep="1",
+                            sy=str(y0 + ystep * s_[0]), sx=str(s_[1]), gy=str(y0 + ystep * g_[0]), gx=str(g_[1]),
+                            snaps=0, snapg=0, res=False, group=gi, shape=shape,
+                            scell=list(s_), gcell=list(g_), pivot=list(pivot)))
+    return out
+
+
+def run_walls(r, n_groups, sizes, stop_after=None, batch=1500):
+    """the long-grid family: the real function against the exact numba Dijkstra (no model run: the functional
+    model is not meant for thousand-cell rasters).  Returns the number of failures found."""
+    dij = numba_dijkstra()
+    cases = wall_cases(r.rng, n_groups, sizes)
+    found = 0
+    cache = {}
+    for k in range(0, len(cases), batch):
+        chunk = cases[k:k + batch]
+        for c, (status, out) in zip(chunk, guarded_search(chunk)):
+            if status == "skipped":
+                r.tag("skipped-after-hangs")
+                continue
+            S, G = tuple(c["scell"]), tuple(c["gcell"])
+            key = c["group"]
+            if key not in cache:
+                # every pair of a group shares the cell behind the wall: one Dijkstra from it serves all (costs are symmetric)
+                cache.clear()
+                cross = crossable_exact(c)
+                pv = tuple(c["pivot"])
+                cache[key] = (cross,) + tuple(dij(cross, c["conn"] == 8, pv[0], pv[1]))
+            cross, A, B = cache[key]
+            other = G if S == tuple(c["pivot"]) else S
+            best = {G: (int(A[other]), int(B[other]))} if A[other] >= 0 else {}
+            nn = 0 if out is None else int((~np.isnan(out)).sum())
+            r.case({k_: v for k_, v in c.items() if k_ != "group"}, desc=None, nontrivial=(nn != 1),
+                   tags=["stream:walls", f"conn:{c['conn']}", f"status:{status}", "wall:" + c["shape"],
+                         "result:" + ("error" if out is None else "all-nan" if nn == 0 else "single-cell" if nn == 1 else "path"),
+                         f"size:{c['grid']['h']}x{c['grid']['w']}"])
+            if status == "hang":
+                r.fail("hang", f"a_star_search did not return within {HANG_S:.0f} s on a {c['grid']['h']}x{c['grid']['w']} raster", c)
+                found += 1
+                continue
+            if status != "ok":
+                r.fail("path", f"start cell {S} and goal cell {G} lie inside the raster but the call raised {status}", c)
+                found += 1
+                continue
+            bad = check_path(out, cross, c["conn"], S, G, best=best)
+            if bad:
+                r.fail("path", f"start cell {S}, goal cell {G}: {bad}", c)
+                found += 1
+        if stop_after is not None and found >= stop_after:
+            break
+    return found
+
+
+# ---- surfaces of every dtype x barrier lists the dtype cannot hold
+DTYPES = list(INT_RANGE) + list(FLOAT_DT)
+F32_TENTH = float(np.float32(0.1))          # a float32 value that is not the float64 0.1
+
+
+def ftoken(x):
+    """typed barrier token of a Python float"""
+    return "f:" + tok(float(x))
+
+
+def exact_of(x):
+    if isinstance(x, int):
+        return Fraction(x)
+    if x != x:
+        return "nan"
+    if math.isinf(x):
+        return "inf" if x > 0 else "-inf"
+    return Fraction(x)
+
+
+def numpy_holds(objs):
+    """np.array(list) keeps every listed number exactly (no object array, no int -> float rounding)"""
+    if not objs:
+        return True
+    try:
+        arr = np.array(objs)
+    except (OverflowError, ValueError, TypeError):
+        return False
+    if arr.dtype == object:
+        return False
+    for a, o in zip(arr.tolist(), objs):
+        if exact_of(a) != exact_of(o):
+            return False
+    return True
+
+
+EXACT_CELL = 2 ** 52          # |cell| <= 2^52: `==` against any listed number is the same in exact arithmetic and under
+#                               NumPy/numba promotion (a 64-bit integer beyond 2^53 compared with a float64 or a
+#                               differently signed integer is compared in float64 by the platform: not judged)
+
+
+def dtype_case(rng):
+    """a small maze in one of the ten numeric dtypes; the barrier list mixes values of the surface with numbers the
+    dtype cannot hold (outside its range by a multiple of 2^bits, fractional, NaN, +-inf, 64-bit extremes, negative for
+    unsigned, float32 neighbours) and duplicates.  Which cells are barriers is decided by the oracle in exact arithmetic."""
+    dt = rng.choice(DTYPES)
+    h, w = rng.randrange(2, 7), rng.randrange(2, 7)
+    if dt in INT_RANGE:
+        lo, hi = INT_RANGE[dt]
+        bits = (hi - lo + 1).bit_length() - 1
+        pool = [0, 1, 2, 3, 5, 21, 127, hi, hi - 1, lo, lo + 1, -1, 241, 255, (hi + 1) // 2, EXACT_CELL, -EXACT_CELL]
+        pool = sorted({v for v in pool if lo <= v <= hi and abs(v) <= EXACT_CELL})
+    else:
+        bits = None
+        pool = [0.0, 1.0, 2.0, 3.0, 0.5, 2.5, -1.0, 16777216.0, F32_TENTH, 255.0]
+        if dt == "float64":
+            pool += [0.1, 16777217.0, 1.0 + 2.0 ** -30, float(EXACT_CELL)]
+        if rng.random() < 0.15:
+            pool += [float("inf"), float("-inf")]
+    vals = rng.sample(pool, min(len(pool), rng.randrange(2, 5)))
+    floor_v, others = vals[0], vals[1:]
+    dens = rng.choice([0.15, 0.3, 0.45])
+    data = [[(rng.choice(others) if rng.random() < dens else floor_v) for _ in range(w)] for _ in range(h)]
+    if dt in FLOAT_DT and rng.random() < 0.3:
+        for i in range(h):
+            for j in range(w):
+                if rng.random() < 0.08:
+                    data[i][j] = float("nan")
+
+    def near(v):
+        """a number that is NOT v but that a conversion to the surface dtype may turn into v"""
+        k = rng.random()
+        if dt in INT_RANGE:
+            if k < 0.45:
+                return "i:%d" % (v + rng.choice([1, -1, 2, -2]) * 2 ** bits)
+            if k < 0.8:
+                x = v + rng.choice([0.5, -0.5, 0.25, 0.75, -0.25])
+                return ftoken(x) if abs(v) < 2 ** 40 else "i:%d" % (v + 2 ** bits)
+            if k < 0.9:
+                return "i:%d" % (v + 2 ** 64)
+            return "i:%d" % (-v if v else 2 ** bits)
+        if isinstance(v, float) and (v != v or math.isinf(v)):
+            return "f:nan"
+        if dt == "float32":
+            x = rng.choice([v + 2.0 ** -30, v * (1 + 2.0 ** -40), 0.1 if v == F32_TENTH else v + 2.0 ** -28,
+                            16777217.0 if v == 16777216.0 else v - 2.0 ** -31])
+            return ftoken(x) if np.float32(x) == np.float32(v) and x != v else ("i:16777217" if v == 16777216.0 else "f:nan")
+        x = rng.choice([float(np.float32(v)) if float(np.float32(v)) != v else v + 0.5, v + 0.5])
+        return ftoken(x)
+
+    def plain(v):
+        if dt in INT_RANGE:
+            return rng.choice(["i:%d" % v, ftoken(float(v))]) if abs(v) < 2 ** 53 else "i:%d" % v
+        if v != v or math.isinf(v):
+            return ftoken(v)
+        return rng.choice([ftoken(v), "i:%d" % int(v)]) if v == int(v) and abs(v) < 2 ** 53 else ftoken(v)
+
+    bar = []
+    for _ in range(rng.choice([0, 1, 1, 2, 2, 3, 4])):
+        k = rng.random()
+        if k < 0.3 and others:
+            bar.append(plain(rng.choice(others)))
+        elif k < 0.75:
+            bar.append(near(rng.choice(vals)))
+        elif k < 0.85:
+            bar.append(rng.choice(["f:nan", "f:inf", "f:-inf"]))
+        elif k < 0.93:
+            bar.append(rng.choice(["i:%d" % (2 ** 63 - 1), "i:%d" % (-2 ** 63), "i:%d" % (2 ** 64 - 1), "i:-9999", "i:-1",
+                                   "i:%d" % 10 ** 18, "f:" + tok(1e300), "f:" + tok(-0.0)]))
+        elif bar:
+            bar.append(rng.choice(bar))
+    case = dict(kind="search", dtype=dt, data=[[tok(v) for v in row] for row in data], bar=bar, barriers=[], conn=rng.choice([4, 8]),
+                y0="0", ystep="1", x0="0", xstep="1", snaps=int(rng.random() < 0.25), snapg=int(rng.random() < 0.25), res=False)
+    # keep the list within what numpy itself can hold exactly (a 70-bit integer, or an int above 2^53 next to a
+    # float, is not a number numpy can pass on: outside the property's domain)
+    while not numpy_holds(barrier_objects(case)):
+        objs = barrier_objects(case)
+        drop = max(range(len(objs)), key=lambda i: abs(objs[i]) if isinstance(objs[i], int) else -1)
+        del case["bar"][drop]
+    cross = crossable_exact(case)
+    free = [(int(i), int(j)) for i, j in np.argwhere(cross)]
+
+    def pick():
+        if free and rng.random() < 0.85:
+            return rng.choice(free)
+        return (rng.randrange(h), rng.randrange(w))
+    s_, g_ = pick(), pick()
+    case.update(sy=str(s_[0]), sx=str(s_[1]), gy=str(g_[0]), gx=str(g_[1]))
+    return case
+
+
 def exhaustive_cases(shapes, sample=None, rng=None):
     """every barrier layout x start/goal pair x connectivity on the given shapes"""
     for h, w in shapes:
@@ -549,7 +965,7 @@ def exhaustive_cases(shapes, sample=None, rng=None):
 
 def compare_search(r, stream, case, status, out, rep):
     mstatus, d = parse_reply(rep)
-    h, w = len(case["data"]), len(case["data"][0])
+    h, w = len(data_rows(case)), len(data_rows(case)[0])
     if status != "ok" or mstatus != "ok":
         if status != mstatus:
             r.disagree(stream, case, f"a_star_search -> {status}", f"model -> {rep[:200]}")
@@ -589,6 +1005,23 @@ def run_searches(r, stream, cases, tags_of=None):
         tags = [f"stream:{stream}", f"conn:{c['conn']}", f"status:{status}",
                 "result:" + ("error" if out is None else "all-nan" if nn == 0 else "single-cell" if nn == 1 else "path"),
                 f"snap:{c['snaps']}{c['snapg']}"]
+        if stream == "dtypes":
+            tags.append("dtype:" + c["dtype"])
+            objs = barrier_objects(c)
+            lo, hi = INT_RANGE.get(c["dtype"], (None, None))
+            for o in objs:
+                if isinstance(o, float) and (o != o or math.isinf(o)):
+                    tags.append("barrier:nan-or-inf")
+                elif lo is not None and isinstance(o, float) and o != int(o):
+                    tags.append("barrier:fractional-for-int-surface")
+                elif lo is not None and not lo <= o <= hi:
+                    tags.append("barrier:outside-dtype-range")
+                elif lo is None and isinstance(o, float) and c["dtype"] == "float32" and float(np.float32(o)) != o:
+                    tags.append("barrier:not-a-float32")
+                else:
+                    tags.append("barrier:representable")
+            if len(set(map(repr, objs))) < len(objs):
+                tags.append("barrier:duplicates")
         if stream == "mazes":
             tags.append("coords:" + ("fractional" if any(F(c[k]).denominator not in (1, 2, 4) for k in ("ystep", "xstep", "y0", "x0")) else "dyadic"))
             tags.append("rows:" + ("descending" if F(c["ystep"]) < 0 else "ascending"))
@@ -681,8 +1114,14 @@ def run(r, scale=1):
               "queried from every cell on all shapes up to 4x4 (5x5 thorough) + random sparse grids to 8x8; "
               "exhaustive: every barrier layout x start/goal pair x connectivity 4/8 on grids up to 3x3 (quick: up to "
               "2x3/3x2 complete + a sample of 3x3); mazes: random 2..8 x 2..8 grids, barrier density 0.15-0.5, NaN "
-              "cells, 0-2 barrier values, all coordinate kinds, points off-centre, snap on/off. Non-trivial = distinct "
-              "case whose result is not the single start=goal cell.")
+              "cells, 0-2 barrier values, all coordinate kinds, points off-centre, snap on/off; dtypes: 2..6 x 2..6 mazes "
+              "in int8..uint64/float32/float64 (cells up to 2^52 in magnitude, dtype extremes, +-inf, NaN), barrier lists of "
+              "0-4 Python numbers: surface values (as int or float), values off by k*2^bits / +-0.5 / +-0.25 / 2^64, negative "
+              "for unsigned, float32 neighbours, NaN, +-inf, 64-bit extremes, duplicates (only lists np.array holds exactly); "
+              "walls: long rasters 12x40..20x70 (thorough: to 36x140) with a straight / L / two-armed wall near one end, "
+              "free cells at its ends, start behind it, goals in line or on the diagonal with a free end and anywhere, "
+              "transposed/mirrored, both directions, conn 8 (80%) / 4, judged by an exact numba Dijkstra only. "
+              "Non-trivial = distinct case whose result is not the single start=goal cell.")
     # compile the numba kernels in this process (children are forked from it); the start cell is a
     # barrier, so the search loop is never entered
     real_search(unit_case([[0.0, 0.0], [0.0, 0.0]], 8, (0, 0), (1, 1)))
@@ -712,14 +1151,22 @@ def run(r, scale=1):
                                     descending=r.rng.random() < 0.5))
     run_searches(r, "small-snap", snap_small)
     run_searches(r, "mazes", [maze_case(r.rng) for _ in range((700 if quick else 15000) * scale)])
+    run_searches(r, "dtypes", [dtype_case(r.rng) for _ in range((1500 if quick else 20000) * scale)])
+    run_walls(r, (25 if quick else 500) * scale, WALL_SIZES_QUICK if quick else WALL_SIZES_QUICK + WALL_SIZES_BIG)
     run_searches(r, "malformed", malformed_cases(r.rng))
     run_rejections(r)
     r.assumptions += [
         "costs: theorems over exact arithmetic (any ordered field with s*s = 2); the float run is compared bit for bit with the model executed over IEEE doubles",
         "points are taken within half a cell of the axis extent (outside it the code mirrors about the first centre; not judged)",
         "regularly spaced, monotone coordinate axes; `res` attribute, when present, equals the spacing",
+        "cells up to 2^52 in magnitude (beyond 2^53 numba / NumPy compare mixed 64-bit integers and floats in float64: the "
+        "platform's ==, observed, not judged); barrier lists np.array holds exactly (no integer beyond 64 bits, no integer "
+        "above 2^53 next to a float)",
     ]
-    r.trusted += ["hand model Model/AStar.lean tied to pathfinding.py by the correspondence run only",
+    r.trusted += ["hand model Model/AStar.lean: heuristic, step length, neighbour tables, relaxation body, pop bookkeeping, "
+                  "min-cost scan, barrier / inside tests, pixel rule and snap scan are proved equal to definitions generated "
+                  "from the source (Gen/AStarFacts.lean); the while-loop skeleton, _reconstruct_path and the wrapper's step "
+                  "order are tied by the correspondence run only",
                   "Lean `Float` = IEEE binary64 as in numba (add, sqrt, compare)"]
 
 
@@ -730,6 +1177,11 @@ def search(r):
     run_snap(r, 1500 if quick else 6000, lone_max=3)
     run_searches(r, "exhaustive", exhaustive_cases([(3, 3)], sample=0.04 if quick else 0.2, rng=r.rng))
     run_searches(r, "mazes", [maze_case(r.rng) for _ in range(2500 if quick else 12000)])
+    run_searches(r, "dtypes", [dtype_case(r.rng) for _ in range(3000 if quick else 12000)])
+    if not r.failures:
+        # nothing small fails: look for a route that is only slightly too long (needs near-tie alternatives, i.e.
+        # long rasters); stops as soon as three failing inputs are known
+        run_walls(r, 800 if quick else 3000, WALL_SIZES_QUICK if quick else WALL_SIZES_QUICK + WALL_SIZES_BIG, stop_after=3)
 
 
 def replay(r, body):
